@@ -6,7 +6,7 @@
  *          returns a secret status bit.  Secret: the whole decrypted block and
  *          the core's status.  Public: len (= modulus length, concrete).
  *  -DFN=2  br_rsa_oaep_unpad (src/rsa/rsa_oaep_unpad.c) with br_mgf1_xor and the
- *          translated br_sha1 (all IR).  Secret: the whole encoded message.
+ *          translated br_sha1 (or br_md5 with -DOH=2) (all IR).  Secret: the whole encoded message.
  *          Public: k, label.  Documented disclosure: validity and, if valid,
  *          the message length -- both runs are assumed to agree on it.
  */
@@ -18,6 +18,13 @@
 #endif
 #ifndef LABLEN
 #define LABLEN 3
+#endif
+#if defined(OH) && OH == 2
+#define OVT_IR ir_g_br_md5_vtable
+#define OVT_REAL br_md5_vtable
+#else
+#define OVT_IR ir_g_br_sha1_vtable
+#define OVT_REAL br_sha1_vtable
 #endif
 static unsigned char data[LEN + 1], label[LABLEN + 1];
 static uint32_t ret, core_ret;
@@ -53,7 +60,7 @@ static void c08_call(void)
 #if FN == 1
 	ret = ir_br_rsa_ssl_decrypt(stub_core, (unsigned char *)&sk, data, LEN);
 #else
-	ret = ir_br_rsa_oaep_unpad((unsigned char *)&ir_g_br_sha1_vtable, label, LABLEN, data, (unsigned char *)&dlen);
+	ret = ir_br_rsa_oaep_unpad((unsigned char *)&OVT_IR, label, LABLEN, data, (unsigned char *)&dlen);
 #endif
 }
 #if FN == 2
@@ -65,7 +72,7 @@ static void c08_call_real(void)
 #if FN == 1
 	ret = br_rsa_ssl_decrypt(real_core, &sk, data, LEN);
 #else
-	ret = br_rsa_oaep_unpad(&br_sha1_vtable, label, LABLEN, data, &dlen);
+	ret = br_rsa_oaep_unpad(&OVT_REAL, label, LABLEN, data, &dlen);
 #endif
 }
 static void c08_out(void) { C08_OUT(data, LEN); C08_OUTV(ret); C08_OUTV(dlen); }
